@@ -17,6 +17,9 @@ type CodeWriter struct {
 	pendings []rune
 	// lastByte is the last byte written to the buffer (0 if nothing was written yet)
 	lastByte byte
+	// semiOmitted is true while the last thing a printer did was to leave out an
+	// optional semicolon (nothing has been written since)
+	semiOmitted bool
 }
 
 // emit appends text to the buffer and keeps the source mapper's generated
@@ -29,6 +32,7 @@ func (cw *CodeWriter) emit(s string) {
 	cw.separateSigns(s[0])
 	cw.Builder.WriteString(s)
 	cw.lastByte = s[len(s)-1]
+	cw.semiOmitted = false
 	if cw.Mapper == nil {
 		return
 	}
@@ -61,6 +65,7 @@ func (cw *CodeWriter) WriteRune(r rune) {
 	cw.separateSigns(byte(r))
 	cw.Builder.WriteRune(r)
 	cw.lastByte = byte(r)
+	cw.semiOmitted = false
 	if cw.Mapper == nil {
 		return
 	}
@@ -78,6 +83,17 @@ func (cw *CodeWriter) WriteSemi() {
 		return
 	}
 	if cw.WriteSemicolons {
+		cw.WriteRune(';')
+		return
+	}
+	cw.semiOmitted = true
+}
+
+// RequireSemi writes the semicolon that WriteSemi has just left out. Printers
+// call it where the semicolon is not optional after all, e.g. between the
+// brace-less branch of an if statement and its else.
+func (cw *CodeWriter) RequireSemi() {
+	if cw.semiOmitted {
 		cw.WriteRune(';')
 	}
 }
